@@ -202,6 +202,8 @@ static void do_op(ctx_t *c, const opspec_t *s, opres_t *r) {
     }
 }
 
+static int CUR_MAX;      /* element limit set with setsize() on the list / queue / stack under test (0 = none): an add at the limit is refused */
+static void set_max(ctx_t *c, int max) { if (c->kind == K_LIST) c->list->setsize(c->list, (size_t)max); else if (c->kind == K_QUEUE) c->queue->setsize(c->queue, (size_t)max); else if (c->kind == K_STACK) c->stack->setsize(c->stack, (size_t)max); }
 /* ---- sequential models --------------------------------------------------------------------- */
 #define NKEYS 4
 typedef struct { uint64_t map[NKEYS]; uint64_t seq[MAXSNAP * 2]; unsigned char skey[MAXSNAP * 2]; int n; } model_t;
@@ -245,8 +247,8 @@ static bool model_apply(int kind, model_t *m, const hop_t *h) {
     }
     bool stack = kind == K_STACK, queue = kind == K_QUEUE;
     switch (s->op) {
-    case O_ADDFIRST: if (queue) { seq_ins(m, m->n, s->val); return r->ok == 1; } seq_ins(m, 0, s->val); return r->ok == 1;
-    case O_ADDLAST: if (stack) { seq_ins(m, 0, s->val); return r->ok == 1; } seq_ins(m, m->n, s->val); return r->ok == 1;
+    case O_ADDFIRST: if (CUR_MAX && m->n >= CUR_MAX) return !r->ok; if (queue) { seq_ins(m, m->n, s->val); return r->ok == 1; } seq_ins(m, 0, s->val); return r->ok == 1;
+    case O_ADDLAST: if (CUR_MAX && m->n >= CUR_MAX) return !r->ok; if (stack) { seq_ins(m, 0, s->val); return r->ok == 1; } seq_ins(m, m->n, s->val); return r->ok == 1;
     case O_POPFIRST: if (m->n == 0) return !r->ok; { uint64_t v = seq_del(m, 0); return r->ok && r->val == v; }
     case O_POPLAST: if (m->n == 0) return !r->ok; { uint64_t v = seq_del(m, m->n - 1); return r->ok && r->val == v; }
     case O_GETFIRST: case O_NEXT1: if (m->n == 0) return !r->ok; return r->ok && r->val == m->seq[0];
@@ -258,7 +260,7 @@ static bool model_apply(int kind, model_t *m, const hop_t *h) {
     case O_RESIZE: { int cap = s->key ? 6 : 1; if (m->n > cap) m->n = cap; return r->ok == 1; }
     case O_REMOVEAT: if (s->key >= m->n) return !r->ok; seq_del(m, s->key); return r->ok == 1;
     case O_SETAT: if (s->key >= m->n) return !r->ok; m->seq[s->key] = s->val; return r->ok == 1;
-    case O_ADDAT: if (s->key > m->n) return !r->ok; seq_ins(m, s->key, s->val); return r->ok == 1;
+    case O_ADDAT: if (s->key > m->n || (CUR_MAX && m->n >= CUR_MAX)) return !r->ok; seq_ins(m, s->key, s->val); return r->ok == 1;
     case O_GETAT: if (s->key >= m->n) return !r->ok; return r->ok && r->val == m->seq[s->key];
     case O_POPAT: if (s->key >= m->n) return !r->ok; { uint64_t v = seq_del(m, s->key); return r->ok && r->val == v; }
     case O_TOARRAY: case O_TOSTRING: if (r->n != m->n) return false; return m->n == 0 || !memcmp(r->snap, m->seq, (size_t)m->n * 8);
@@ -319,7 +321,7 @@ static void describe(char *b, size_t bs, const hop_t *h) {
 #define MAXW 4
 #define MAXOPS 4
 #define MAXCHOICE 4096
-typedef struct { int nthreads; int nops[MAXW]; opspec_t ops[MAXW][MAXOPS]; int kind; int prefill; } program_t;
+typedef struct { int nthreads; int nops[MAXW]; opspec_t ops[MAXW][MAXOPS]; int kind; int prefill; int maxsize; } program_t;
 typedef struct { int id; pthread_t th; volatile int state; int park_kind; void *park_mutex; } worker_t;
 enum { W_NEW, W_PARKED, W_RUNNING, W_DONE };
 static worker_t W[MAXW]; static int NW;
@@ -406,7 +408,7 @@ static uint64_t idval(uint64_t n) { uint64_t v = 0; for (int i = 0; i < 8; i++) 
 
 /* run one execution of program pg under the current choice prefix / random scheduler */
 static int run_execution(program_t *pg, model_t *init, int *total_ops) {
-    make(&CX, pg->kind); PG = pg;
+    make(&CX, pg->kind); PG = pg; CUR_MAX = pg->maxsize; if (pg->maxsize) set_max(&CX, pg->maxsize);
     memset(init, 0, sizeof *init);
     /* identical pre-fill */
     for (int i = 0; i < pg->prefill; i++) { opspec_t s; opres_t r; s.key = i % 2; s.val = idval(900000 + (uint64_t)i);
@@ -482,12 +484,14 @@ static void gen_program(program_t *pg, long pid, rng_t *r) {
     if (d == 5 && (pg->kind == K_LIST || pg->kind == K_VECTOR)) { pg->nthreads = 2; pg->prefill = 2; pg->nops[0] = 2; pg->nops[1] = 2; pg->ops[0][0].op = O_REMOVEAT; pg->ops[0][0].key = 1; pg->ops[0][1].op = pg->kind == K_VECTOR ? O_SETAT : O_GETAT; pg->ops[0][1].key = 0; pg->ops[1][0].op = O_POPFIRST; pg->ops[1][1].op = O_ADDFIRST; }
     if (d == 6 && pg->kind == K_VECTOR) { pg->nthreads = 2; pg->prefill = 3; pg->nops[0] = 2; pg->nops[1] = 2; pg->ops[0][0].op = O_RESIZE; pg->ops[0][0].key = 0; pg->ops[0][1].op = O_RESIZE; pg->ops[0][1].key = 1; pg->ops[1][0].op = O_ADDLAST; pg->ops[1][1].op = O_TOARRAY; }
     if (d == 6 && pg->kind == K_LIST) { pg->nthreads = 2; pg->prefill = 2; pg->nops[0] = 2; pg->nops[1] = 2; pg->ops[0][0].op = O_RMFIRST; pg->ops[0][1].op = O_RMLAST; pg->ops[1][0].op = O_TOSTRING; pg->ops[1][1].op = O_ADDFIRST; }
+    if ((pg->kind == K_LIST || pg->kind == K_QUEUE || pg->kind == K_STACK) && d >= 7 && d % 4 == 3) { pg->maxsize = 2; if (pg->prefill > 2) pg->prefill = 2; }     /* a size limit: concurrent adds at the limit */
+    if (d == 7 && (pg->kind == K_LIST || pg->kind == K_QUEUE || pg->kind == K_STACK)) { pg->nthreads = 3; pg->prefill = 1; pg->maxsize = 2; for (int t = 0; t < 3; t++) { pg->nops[t] = 1; pg->ops[t][0].op = O_ADDLAST; } }
     if (d == 2 && pg->kind == K_LISTTBL) { pg->nthreads = 2; pg->prefill = 1; pg->nops[0] = 2; pg->nops[1] = 2; pg->ops[0][0].op = O_NEXT1; pg->ops[0][1].op = O_NEXT1; pg->ops[1][0].op = O_PUT; pg->ops[1][1].op = O_PUT; for (int t = 0; t < 2; t++) for (int i = 0; i < 2; i++) pg->ops[t][i].key = 0; }
     if (d == 3 && pg->kind == K_LISTMULTI) { pg->nthreads = 2; pg->prefill = 2; pg->nops[0] = 2; pg->nops[1] = 2; pg->ops[0][0].op = O_NEXT1ANY; pg->ops[0][1].op = O_NEXT1; pg->ops[1][0].op = O_REMOVE; pg->ops[1][1].op = O_PUT; for (int t = 0; t < 2; t++) for (int i = 0; i < 2; i++) pg->ops[t][i].key = 0; }
     if (d == 2 && pg->kind == K_LIST) { pg->nthreads = 2; pg->nops[0] = 1; pg->nops[1] = 2; pg->prefill = 1; pg->ops[0][0].op = O_TOSTRING; pg->ops[1][0].op = O_POPFIRST; pg->ops[1][1].op = O_ADDLAST; }
 }
 static void program_text(program_t *pg, char *b, size_t bs) {
-    int n = snprintf(b, bs, "%s prefill=%d: ", KNAME[pg->kind], pg->prefill);
+    int n = snprintf(b, bs, "%s prefill=%d%s: ", KNAME[pg->kind], pg->prefill, pg->maxsize ? " limit=2" : "");
     for (int t = 0; t < pg->nthreads; t++) { n += snprintf(b + n, bs - (size_t)n, "%sT%d{", t ? " || " : "", t);
         for (int i = 0; i < pg->nops[t]; i++) n += snprintf(b + n, bs - (size_t)n, "%s%s%s", i ? ";" : "", ONAME[pg->ops[t][i].op], (pg->ops[t][i].op <= O_REMOVE || pg->ops[t][i].op == O_NEAREST || pg->ops[t][i].op == O_GETMULTI || (pg->ops[t][i].op == O_NEXT1 && is_keyed(pg->kind))) ? (pg->ops[t][i].key ? "(k1)" : "(k0)") : ((pg->ops[t][i].op >= O_ADDAT && pg->ops[t][i].op <= O_POPAT) || pg->ops[t][i].op == O_REMOVEAT || pg->ops[t][i].op == O_SETAT || pg->ops[t][i].op == O_RESIZE) ? (pg->ops[t][i].key ? "(@1)" : "(@0)") : "");
         n += snprintf(b + n, bs - (size_t)n, "}"); }
@@ -628,10 +632,13 @@ static const char *check_seq_history(int kind, hop_t *all, int n, hop_t *fin) {
         if (!is_pop(p->s.op) || !p->r.ok) continue;
         int adder = -1; for (int j = 0; j < n; j++) if (is_add(all[j].s.op) && all[j].s.val == p->r.val) adder = j;
         if (adder < 0) return "a pop returned a value that no thread added";
+        if (!all[adder].r.ok) return "a pop returned a value whose add had been refused";
         if (all[adder].inv > p->resp) return "a pop returned a value before its add was invoked";
         for (int j = i + 1; j < n; j++) if (is_pop(all[j].s.op) && all[j].r.ok && all[j].r.val == p->r.val) return "the same value was popped twice (duplicated element)";
         for (int j = 0; j < fin->r.n; j++) if (fin->r.snap[j] == p->r.val) return "a popped value is still in the container (duplicated element)";
     }
+    if (CUR_MAX && fin->r.n > CUR_MAX) return "the container holds more elements than its limit allows";
+    if (CUR_MAX) { long okadds = 0, okpops = 0; for (int i = 0; i < n; i++) { if (is_add(all[i].s.op) && all[i].r.ok) okadds++; if (is_pop(all[i].s.op) && all[i].r.ok) okpops++; } if (!has_clear && okadds - okpops != fin->r.n) return "successful adds minus successful pops differ from the final length (an add beyond the limit was accepted or an element was lost)"; }
     for (int j = 0; j < fin->r.n; j++) { int adder = -1; for (int i = 0; i < n; i++) if (is_add(all[i].s.op) && all[i].s.val == fin->r.snap[j]) adder = i;
         if (adder < 0) return "the final contents hold a value that no thread added";
         for (int k = j + 1; k < fin->r.n; k++) if (fin->r.snap[k] == fin->r.snap[j]) return "the final contents hold a value twice"; }
@@ -652,7 +659,7 @@ static const char *check_seq_history(int kind, hop_t *all, int n, hop_t *fin) {
     /* queue: FIFO per producer - values of one producer are popped in the order they were pushed */
     if (kind == K_QUEUE && !has_clear) for (int i = 0; i < n; i++) for (int j = 0; j < n; j++) {
         hop_t *a = &all[i], *b = &all[j];
-        if (a->thread != b->thread || a->s.op != O_ADDLAST || b->s.op != O_ADDLAST || !(a->resp < b->inv)) continue;   /* a pushed before b by the same producer */
+        if (a->thread != b->thread || a->s.op != O_ADDLAST || b->s.op != O_ADDLAST || !a->r.ok || !b->r.ok || !(a->resp < b->inv)) continue;   /* refused pushes (size limit) were never queued */   /* a pushed before b by the same producer */
         hop_t *pa = NULL, *pb = NULL; for (int k = 0; k < n; k++) if (all[k].s.op == O_POPFIRST && all[k].r.ok) { if (all[k].r.val == a->s.val) pa = &all[k]; if (all[k].r.val == b->s.val) pb = &all[k]; }
         if (pb && !pa) return "queue: a later element of a producer was popped while an earlier one is still queued";
         if (pa && pb && pb->resp < pa->inv) return "queue: elements of one producer were popped out of order"; }
@@ -665,6 +672,7 @@ static void stress_case(long caseno) {
     if (is_keyed(S_KIND) && S_NT * S_OPS > 56) S_OPS = 56 / S_NT;
     vf_case_begin(caseno, "stress: %s threads=%d ops/thread=%d", KNAME[S_KIND], S_NT, S_OPS);
     make(&CX, S_KIND); STAMP = 0;
+    CUR_MAX = ((S_KIND == K_LIST || S_KIND == K_QUEUE || S_KIND == K_STACK) && (caseno / NKINDS) % 3 == 1) ? 3 : 0; if (CUR_MAX) set_max(&CX, CUR_MAX);
     vf_lock_register(CX.mutex);
     vf_sched_point = stress_cb;
     pthread_barrier_init(&SBAR, NULL, (unsigned)S_NT);
